@@ -174,12 +174,24 @@ def analyse(obs: Obs, prog):
     w = W(V, "edit_index")
     q = tuple_n(r.ret, 4, "Vmap.edit_index")
     IDX = P("idx")
-    got = [c for c in mcalls(r.ret, "edit") if c[1][1] == GF]
+    # The sub-request edits the slice through ITS OWN edit method - request.edit(key, slice, argdiffs), as Scan.edit_index does: primitive requests end up in
+    # gen_fn.edit, compositional ones (Rejuvenate, HMC, StaticRequest) implement edit themselves.  Calling self.gen_fn.edit(key, slice, request, argdiffs)
+    # directly makes every compositional request raise NotSupportedEditRequest under an IndexRequest on a Vmap.
+    got_gf = [c for c in mcalls(r.ret, "edit") if c[1][1] == GF]
+    got = [c for c in mcalls(r.ret, "edit") if c[1][1] == P("request")]
+    obs.add({"C11", "C05", "C07", "C27", "C28", "C38"}, "REQ-DISPATCH", "Vmap.edit_index/dispatch", len(got) == 1 and not got_gf, construct="who performs the slice edit",
+            derived=f"{len(got)} call(s) of request.edit, {len(got_gf)} direct call(s) of self.gen_fn.edit", expected="request.edit(key, trace_slice, argdiffs_slice) - the sibling Scan.edit_index does the same", where=w)
+    if len(got) != 1 and len(got_gf) == 1:
+        got = [("call", got_gf[0][1], (got_gf[0][2][0], got_gf[0][2][1], got_gf[0][2][3]), ())]
+        e_req = got_gf[0][2][2]
+    else:
+        e_req = P("request") if got else None
     if len(got) != 1:
         obs.add({"C11", "C05", "C07"}, "IDX-ALIGN", "Vmap.edit_index/inner", False, derived=f"{len(got)} inner edits", expected="one", where=w)
     else:
-        e = got[0]
-        k, sl, rq, ad = e[2]
+        e = got[0] if not got_gf else got_gf[0]
+        k, sl, ad = got[0][2]
+        rq = e_req
         tin = ("attr", P("trace"), "inner")
         want_slice = ("treemap", ("index", ("leaf", tin), IDX), (tin,))
         obs.add({"C11", "C05", "C06"}, "IDX-ALIGN", "Vmap.edit_index/slice", sl == want_slice, derived=sl, expected="tree_map(v -> v[idx], trace.inner)", where=w)
